@@ -347,6 +347,32 @@ def correspondence(rep, ctx):
                     break
             all_lines += m.lines
             metas.append(m)
+    # results are independent objects: a decay result / scaled / summed inventory changed in place afterwards leaves the
+    # inventory it was computed from untouched (all-stable, all-radioactive and mixed inventories, zero time included)
+    for hp in (False, True):
+        C = rd.InventoryHP if hp else rd.Inventory
+        for contents in ({"He-3": 4, "Pb-208": 7}, {"Co-59": 2}, {"H-3": 5, "He-3": 1}, {"Mo-99": 3}, {}):
+            for label, fn in (("decay(10, 'd')", lambda i_: i_.decay(10.0, "d")), ("decay(0)", lambda i_: i_.decay(0.0)),
+                              ("* 2", lambda i_: i_ * 2), ("+ itself", lambda i_: i_ + i_), ("/ 1", lambda i_: i_ / 1)):
+                src = C(dict(contents), "num")
+                before = inv_fp(src)
+                rep.dist("result-aliasing")
+                try:
+                    res = fn(src)
+                    res.add({"Sr-90": 11}, "num")
+                    if res.contents and "Sr-90" in res.contents:
+                        res.remove("Sr-90")
+                    for nm_ in list(res.contents)[:1]:
+                        res.remove(nm_)
+                    if inv_fp(src) != before or res is src:
+                        bad += 1
+                        rep.violation("failing-input", f"{C.__name__}({contents!r}, 'num'): the result of {label} is not independent of the "
+                                      f"inventory it came from — changing the result in place changed the original to {dict(src.contents)!r}",
+                                      {"contents": contents, "op": label}, True)
+                except Exception as e:  # noqa: BLE001
+                    bad += 1
+                    rep.violation("failing-input", f"{C.__name__}({contents!r}, 'num') {label} then add/remove on the result raised "
+                                  f"{type(e).__name__}: {e}", {"contents": contents, "op": label}, True)
     model = lean_driver(all_lines) if ctx.build_ok else None
     pos = 0
     for s, m in enumerate(metas):
